@@ -248,6 +248,20 @@ func verifInstantiate(ctx context.Context, bin []byte, name string, store *wasm.
 	return &verifInst{mod: mod, inst: inst, eng: eng, store: store}, nil
 }
 
+// verifInstantiateAgain creates another instance of the SAME compiled module (the wasm.Module and its compiled code are
+// shared, as with Runtime.InstantiateModule called twice on one CompiledModule).
+func verifInstantiateAgain(ctx context.Context, first *verifInst, name string) (*verifInst, error) {
+	typeIDs, err := first.store.GetFunctionTypeIDs(first.mod.TypeSection)
+	if err != nil {
+		return nil, err
+	}
+	inst, err := first.store.Instantiate(ctx, first.mod, name, nil, typeIDs)
+	if err != nil {
+		return nil, err
+	}
+	return &verifInst{mod: first.mod, inst: inst, eng: first.eng, store: first.store}, nil
+}
+
 // verifAddPassiveData inserts a data-count section and one passive data segment (sections must stay ordered:
 // datacount(12) goes before code(10), data(11) after it).
 func verifAddPassiveData(bin []byte, data []byte) []byte {
@@ -267,4 +281,37 @@ func verifAddPassiveData(bin []byte, data []byte) []byte {
 	out = append(out, bin[codeAt:]...)
 	seg := append([]byte{0x01}, vBytes(data)...)
 	return append(out, vSection(11, vVec(seg))...)
+}
+
+// verifAddPassiveDataAfterActive: like verifAddPassiveData for a module that already has an active data segment
+// (the data section is rebuilt with both: active segment 0 as encoded, passive segment 1; data count = 2).
+func verifAddPassiveDataAfterActive(bin []byte, data []byte) []byte {
+	i := 8
+	codeAt, dataAt, dataEnd := -1, -1, -1
+	for i < len(bin) {
+		id := bin[i]
+		sz, n, _ := leb128.LoadUint32(bin[i+1:])
+		if id == 10 {
+			codeAt = i
+		}
+		if id == 11 {
+			dataAt, dataEnd = i, i+1+int(n)+int(sz)
+		}
+		i += 1 + int(n) + int(sz)
+	}
+	if dataAt < 0 {
+		return verifAddPassiveData(bin, data)
+	}
+	out := append([]byte{}, bin[:codeAt]...)
+	out = append(out, vSection(12, vU32(2))...)
+	out = append(out, bin[codeAt:dataAt]...)
+	// old data section content: vec(1) + one active segment
+	sz, n, _ := leb128.LoadUint32(bin[dataAt+1:])
+	old := bin[dataAt+1+int(n) : dataAt+1+int(n)+int(sz)]
+	seg0 := old[1:] // drop the vector count (1)
+	seg1 := append([]byte{0x01}, vBytes(data)...)
+	content := append(vU32(2), seg0...)
+	content = append(content, seg1...)
+	out = append(out, vSection(11, content)...)
+	return append(out, bin[dataEnd:]...)
 }
